@@ -190,3 +190,108 @@ func (g *gctx) directedMove() history {
 	}
 	return h
 }
+
+// Directed family of the sums clause: children of a parent are closed / closing (status
+// updates by the queue controller; the webhook reads whatever state the stored object carries)
+// before a new sibling is created in, moved into or resized inside the parent so that the sum
+// of ALL children's guarantee / deserved is one unit below, at, or one unit above the parent's.
+// The sums run over all children whatever their state; siblings are re-opened afterwards.
+func (g *gctx) directedClosedSibling() history {
+	r := g.r
+	cfg := config{maxDepth: int64(r.Range(3, 5)), allocCheck: int64(r.Intn(2)), rootProt: int64(r.Intn(2))}
+	q0 := baseQ0(r)
+	g.w = newWorld(cfg, q0)
+	h := history{cfg: cfg, q0: q0}
+	alive := true
+	do := func(req request) {
+		if !alive {
+			return
+		}
+		h.reqs = append(h.reqs, req)
+		alive = safeStep(g.w, req)
+	}
+	dims := []int64{2}
+	if r.Chance(1, 3) {
+		dims = append(dims, 3)
+	}
+	withGuar := r.Chance(2, 3)
+	amounts := func(v int64) (des, guar rl) {
+		for _, d := range dims {
+			des = append(des, [2]int64{d, v})
+			if withGuar {
+				guar = append(guar, [2]int64{d, v})
+			}
+		}
+		return
+	}
+	mkq := func(id, parent, v int64) qspec {
+		q := qspec{name: id, parent: parent}
+		q.des, q.guar = amounts(v)
+		return q
+	}
+	total := int64(r.Range(6, 16)) * 1000
+	parent := int64(3)
+	if r.Chance(1, 3) { // the parent itself one level down
+		do(request{kCreate, mkq(3, int64(r.Intn(2)), total+int64(r.Intn(3))*1000)})
+		parent = 4
+	}
+	top := int64(r.Intn(2))
+	if parent == 4 {
+		top = 3
+	}
+	do(request{kCreate, mkq(parent, top, total)})
+
+	// existing children
+	k := r.Range(1, 3)
+	rem := total
+	kids := []int64{}
+	for i := 0; i < k; i++ {
+		max := (rem - 2000) / 1000 / int64(k-i)
+		if max < 1 {
+			break
+		}
+		a := int64(r.Range(1, int(max))) * 1000
+		id := int64(5 + i)
+		do(request{kCreate, mkq(id, parent, a)})
+		kids = append(kids, id)
+		rem -= a
+	}
+	// some of them are closed / closing by the queue controller
+	closed := []int64{}
+	for _, id := range kids {
+		if r.Chance(2, 3) || len(closed) == 0 && id == kids[len(kids)-1] {
+			st := int64(vh.Pick(r, []int{2, 2, 2, 2, 2, 2, 3, 3, 4, 1}))
+			do(request{kEnv, qspec{name: id, alloc: -1, state: st}})
+			closed = append(closed, id)
+		}
+	}
+	// the new sibling's amount: what is left, one unit less, one unit more
+	amt := rem + int64(r.Intn(3)-1)*1000
+	switch mode := r.Intn(4); {
+	case mode == 0:
+		do(request{kCreate, mkq(8, parent, amt)})
+	case mode == 1: // created elsewhere, then moved in
+		do(request{kCreate, mkq(8, int64(r.Intn(2)), amt)})
+		q := mkq(8, parent, amt)
+		do(request{kUpdate, q})
+	case mode == 2: // created small, then resized
+		do(request{kCreate, mkq(8, parent, 1000)})
+		do(request{kUpdate, mkq(8, parent, amt)})
+	default: // an existing sibling is resized to take everything that is left
+		st := g.state()
+		id := vh.Pick(r, kids)
+		cur, _ := st[id].des.get(2)
+		do(request{kUpdate, mkq(id, parent, cur+amt)})
+	}
+	// re-opened: no resource field changes, nothing is re-validated
+	for _, id := range closed {
+		if r.Chance(3, 4) {
+			do(request{kEnv, qspec{name: id, alloc: -1, state: 1}})
+		}
+	}
+	var last int64
+	for n := r.Intn(4); n > 0 && alive; n-- {
+		do(g.nextRequest(&last))
+	}
+	return h
+}
